@@ -23,6 +23,7 @@ pub trait Round: Copy {
 //@@ INCLUDE lib/fm_float_spec.rs
 //@@ INCLUDE lib/fs_spec.rs
 //@@ INCLUDE lib/fs_stubs.rs
+//@@ INCLUDE lib/fm_fbig_clone.rs
 //@@ INCLUDE lib/fm_float_stubs.rs
 use core::marker::PhantomData;
 global size_of usize == 8;   // DESIGN.md section 6: usize is 64-bit in all proofs
